@@ -53,8 +53,14 @@ package netann
 //@   site call ValidateChannelUpdateFields: assert arg(capacity) == capacity && arg(msg) == a
 //@   site call VerifyChannelUpdateSignature: assert arg(msg) == a && arg(pubKey) == pubKey
 //@
+//@ extern func lnwire.NewMSatFromSatoshis
+//@   ensures result == wrap(sat * 1000, 64)
+//@ extern func (lnwire.MilliSatoshi) ToSatoshis
+//@   ensures result == fdiv(m, 1000)
+//@
 //@ func validateChannelUpdate1Fields
 //@   props C20
+//@   requires 0 <= capacity && capacity <= 2100000000000000
 //@   ensures result == nil ==> ret(HasMaxHtlc) && msg.HtlcMaximumMsat != 0 && msg.HtlcMaximumMsat >= msg.HtlcMinimumMsat &&
-//@           (ret(NewMSatFromSatoshis) == 0 || msg.HtlcMaximumMsat <= ret(NewMSatFromSatoshis))
-//@   site call NewMSatFromSatoshis: assert arg(0) == capacity
+//@           (capacity == 0 || msg.HtlcMaximumMsat <= capacity * 1000)
+//@   site call HasMaxHtlc: assert arg(0) == msg.MessageFlags
